@@ -217,6 +217,44 @@ theorem c11_iterate (ms : List (Bytes × JVal)) (xs : List JVal) :
     have := iterateFrom_fail none xs 0 k hk (by intro j e; cases e)
     simpa [iterateArray] using this
 
+/-- [A] `compare` tells different values apart at the top of the two trees: booleans and strings
+are equal only when identical, values of different JSON types (true vs false included: cJSON keeps
+them as two types) never are, arrays of different length never are, and an object lacking a key of
+the other (in either direction) never is. -/
+theorem c11_compare_distinguishes (env : NumEnv) (cs : Bool) :
+    (∀ a b, compare env cs (.bool a) (.bool b) = (a == b)) ∧
+    (∀ a b, compare env cs (.str a) (.str b) = (a == b)) ∧
+    (∀ b, compare env cs .null (.bool b) = false ∧ compare env cs (.bool b) .null = false) ∧
+    (∀ s b, compare env cs (.str s) (.bool b) = false ∧ compare env cs (.str s) .null = false) ∧
+    (∀ xs ys, xs.length ≠ ys.length → compare env cs (.arr xs) (.arr ys) = false) ∧
+    (∀ xs ms, compare env cs (.arr xs) (.obj ms) = false ∧ compare env cs (.obj ms) (.arr xs) = false) ∧
+    (∀ ms ns m, m ∈ ms → findMember cs m.1 ns = none →
+        compare env cs (.obj ms) (.obj ns) = false ∧ compare env cs (.obj ns) (.obj ms) = false) := by
+  refine ⟨?_, ?_, ?_, ?_, ?_, ?_, ?_⟩
+  · intro a b; simp [Json.compare, compareF, depth]
+  · intro a b; simp [Json.compare, compareF, depth]
+  · intro b; simp [Json.compare, compareF, depth]
+  · intro s b; simp [Json.compare, compareF, depth]
+  · intro xs ys h
+    simp [Json.compare, compareF, depth, h]
+  · intro xs ms; simp [Json.compare, compareF, depth]
+  · intro ms ns m hm hf
+    have hall : ms.all (fun m => match findMember cs m.1 ns with
+        | some n => compareF env cs (depth (.obj ms)) m.2 n.2
+        | none => false) = false := by
+      rw [List.all_eq_false]
+      exact ⟨m, hm, by simp [hf]⟩
+    have hall' : ms.all (fun m => match findMember cs m.1 ns with
+        | some n => compareF env cs (depth (.obj ns)) m.2 n.2
+        | none => false) = false := by
+      rw [List.all_eq_false]
+      exact ⟨m, hm, by simp [hf]⟩
+    constructor
+    · simp only [Json.compare, compareF, Bool.and_eq_false_iff]
+      exact Or.inl hall
+    · simp only [Json.compare, compareF, Bool.and_eq_false_iff]
+      exact Or.inr hall'
+
 /-- [B, string part] every string literal the printer emits — for ANY byte string, with any text
 after it — is an RFC 8259 `string` for the independent recogniser `Rfc` (all control characters
 escaped, quote and backslash escaped, `\u` followed by four hex digits). -/
